@@ -47,6 +47,9 @@
 #ifndef OPS
 #define OPS 0xFFFF
 #endif
+#ifndef INJECT
+#define INJECT 0      // 1: every state is declared with an injected base whose guards are user code too (may veto / redirect)
+#endif
 #ifndef PROP
 #define PROP 0          // 0: all monitors; n: only the monitor and assertion ids of property Cn
 #endif
@@ -194,6 +197,7 @@ static const Event* ev_ptr;
 // round that survived its guards (= the transition accepted so far).
 static int   rounds;
 static bool  cur_open, cur_transition, cur_canc, cur_entry_seen; static int cur_dest, cur_org;
+static bool  cur_exit_canc, cur_root_canc;      // the exit-guard phase / the root's guard of the current round cancelled
 static bool  acc_valid; static int acc_dest, acc_org;
 static unsigned surv_mask;             // destinations of surviving rounds
 // request ledger: the most recent request made and not yet picked up by a guard round
@@ -319,7 +323,7 @@ static void guard_view(TGuard& c) {
 template <typename TGuard>
 static void open_round(TGuard& c) {
   finalize_round();
-  rounds++; cur_open = true; cur_transition = true; cur_canc = false; cur_entry_seen = false;
+  rounds++; cur_open = true; cur_transition = true; cur_canc = false; cur_entry_seen = false; cur_exit_canc = false; cur_root_canc = false;
   cur_dest = c.pendingTransition().destination; cur_org = c.pendingTransition().origin;
 #if PAYLOAD
   { const Pay* p = c.pendingTransition().payload(); cur_haspay = p != 0; if (p) cur_pay = *p; }
@@ -341,7 +345,7 @@ static void open_round(TGuard& c) {
 // activation: the first evaluation is that of the initial state itself and carries no transition
 template <typename TGuard>
 static void open_activation_round(TGuard& c) {
-  if (rounds == 0) { rounds = 1; cur_open = true; cur_transition = false; cur_canc = false; cur_entry_seen = false; cur_dest = 0; cur_org = INV;
+  if (rounds == 0) { rounds = 1; cur_open = true; cur_transition = false; cur_canc = false; cur_entry_seen = false; cur_exit_canc = false; cur_root_canc = false; cur_dest = 0; cur_org = INV;
     VA(!c.pendingTransition(), 330);
 #if PAYLOAD
     cur_haspay = false;
@@ -349,15 +353,42 @@ static void open_activation_round(TGuard& c) {
   } else open_round(c);
 }
 
-template <int I> struct St : FSM::State {
+#if INJECT
+// injected base: its guards run before the state's own ones and open the round
+struct Inj : FSM::State {
+  void entryGuard(GuardControl& c) {
+    vrec(13, c.stateId());
+    VA(guards_allowed, 320);
+    inside_guard = true;
+    if (call_kind == CALL_ACTIVATE && !HEAD) open_activation_round(c);
+    guard_act(c, c.stateId());
+    inside_guard = false;
+  }
+  void exitGuard(GuardControl& c) {
+    vrec(14, c.stateId());
+    VA(guards_allowed, 320);
+    VA(call_kind == CALL_PROCESS, 321);
+    inside_guard = true;
+    open_round(c);
+    guard_act(c, c.stateId());
+    inside_guard = false;
+  }
+};
+typedef FSM::StateT<Inj> StBase;
+#else
+typedef FSM::State StBase;
+#endif
+template <int I> struct St : StBase {
+  typedef typename StBase::GuardControl GuardControl; typedef typename StBase::PlanControl PlanControl;
+  typedef typename StBase::FullControl FullControl; typedef typename StBase::ConstControl ConstControl;
   void entryGuard(GuardControl& c) {
     vrec(1, I);
     VA(guards_allowed, 320);
     VA(n_enter + n_exit + n_reenter == 0, 311);
     inside_guard = true;
     if (call_kind == CALL_ACTIVATE) {
-      if (!HEAD) open_activation_round(c);
-      else VA(cur_open && !cur_canc, 302);                 // the root's veto ends the round
+      if (!HEAD && !INJECT) open_activation_round(c);
+      if (HEAD) VA(cur_open && !cur_root_canc, 302);       // the root's veto ends the round
       VA(cur_open && cur_dest == I, 303);
       VA(!cur_entry_seen, 304); cur_entry_seen = true;
       VA(mon_active == -1, 105);
@@ -366,7 +397,7 @@ template <int I> struct St : FSM::State {
       guard_act(c, I);
     } else {
       VA(call_kind == CALL_PROCESS, 321);
-      VA(cur_open && !cur_canc, 302);                      // not consulted once the exit guard has cancelled
+      VA(cur_open && !cur_exit_canc, 302);                 // not consulted once the exit guard has cancelled
       VA(cur_open && cur_dest == I, 303);                  // the entry guard of the pending destination
       VA(!cur_entry_seen, 304); cur_entry_seen = true;
       view(c, I, true);
@@ -383,10 +414,11 @@ template <int I> struct St : FSM::State {
     VA(n_enter + n_exit + n_reenter == 0, 311);
     if (ph_kind) VA(ph == 6, 503);
     inside_guard = true;
-    open_round(c);
+    if (!INJECT) open_round(c);
     view(c, I, true);
     guard_view(c);
     guard_act(c, I);
+    cur_exit_canc = cur_canc;
     inside_guard = false;
   }
   void enter(PlanControl& c) {
@@ -445,6 +477,7 @@ struct Rt : FSM::State {
     view(c, -1, false);
     guard_view(c);
     guard_act(c, -1);
+    cur_root_canc = cur_canc;
     inside_guard = false;
   }
   void exitGuard(GuardControl&) { vrec(22, 0); VA(0, 323); }  // never consulted in a flat machine
@@ -511,8 +544,14 @@ static void end_process() {
       bool same = acc_valid && led_dest == acc_dest;           // asks for what already won: may be dropped as redundant
       bool limit = rounds == LIMIT;                             // substitution limit reached: left over for the next processing point
       VA(same || limit, 240);
-      if (!same) { VA(g->_core.request.destination == led_dest && g->_core.request.origin == led_org, 402); }
-      if (same && !limit) led_valid = false; else led_maybe = same;
+      // a request may only be dropped as redundant if it is redundant in origin and payload too (else the history would
+      // report the origin / payload of a superseded request): the accepted one is an external, payload-free request
+      if (same && !limit) { VA(acc_org == INV, 1109);
+#if PAYLOAD
+        VA(!acc_haspay, 1109);
+#endif
+      }
+      if (same && !limit) led_valid = false; else led_maybe = true;    // at the limit it is left over or dropped: both in order
     } else {                         // was waiting before the first round of this call: a round must have picked it up
       VA(led_maybe, 242);
       led_valid = false;
@@ -545,8 +584,8 @@ static void end_activate() {
   VA(mon_active == e && g->activeStateId() == e, 407);
   if (led_valid) {
     bool same = acc_valid && led_dest == acc_dest; bool limit = rounds == 1 + LIMIT;
-    VA(led_round >= 1, 243); VA(same || limit, 241);
-    if (same && !limit) led_valid = false; else led_maybe = same;
+    VA(led_round >= 1, 243); VA(limit, 241);          // during activation nothing accepted can make a guard's request redundant
+    (void)same; led_maybe = true;
     led_fresh = false; led_round = -1; }
 #if HISTORY
   if (!acc_valid) VA(!g->previousTransition(), 1105);
